@@ -37,7 +37,9 @@ class B:
             ctx.assume(ghost.agree(self.M0, o["_current_axes"], o["_distance_mode"].idx, self.rel_idx))
         else:
             tr = st.heap[self.info["transformer"].oid]
+            # C04 hypothesis "once machine and builder agree": the tracked position is fully known and the machine is at its image
             ctx.assume(ghost.agree_T(self.M0, o["_current_axes"], tr["$A"], tr["$b"]),
+                       AND(*[NOT(c.none) for c in o["_current_axes"].items()]),
                        self.M0.rel == (o["_distance_mode"].idx == self.rel_idx))
         self.transform = transform
         self.h0 = st.snap()
@@ -47,8 +49,12 @@ class B:
         kw = {"**": kwargs} if kwargs is not None else {}
         self.exits = ctx.run(x, f"{cls}.{method}", [self.g] + args, kw, st)
         ctx.replayer = harness.builder_method_replayer(ctx, ctx.w, method, self.g, self.info, self.h0, args, kwargs, self.exits)
-        covers(ctx, self.exits)
-        exits_partition(ctx, self.exits, props=GEN)
+        hint = None
+        if transform != "identity":      # witness region for the reachability queries: an invertible diagonal-plus-shift map (keeps them linear)
+            tr = self.h0[self.info["transformer"].oid]
+            hint = [tr["$A"][i][j].val == ((2, 3, 5)[i] if i == j else 0) for i in range(3) for j in range(3)] + [tr["$b"][i].val == 1 for i in range(3)]
+        covers(ctx, self.exits, hint=hint)
+        exits_partition(ctx, self.exits, props=GEN + ["C04"])
 
     # ------------------------------------------------------------------ generic clauses
     def generic(self, skip=(), known=None):
@@ -73,6 +79,11 @@ class B:
                 M1 = ghost.run_machine(self.M0, e.log)
                 kf = known.get("C01"); k = kf(e) if callable(kf) else kf
                 ctx.check(f"C01 machine==builder position/mode [{tag}]", ghost.agree(M1, o1["_current_axes"], o1["_distance_mode"].idx, self.rel_idx), e, ["C01"], "inv", k)
+            if "C04" not in skip and self.transform != "identity":
+                M1 = ghost.run_machine(self.M0, e.log)
+                tr = self.h0[self.info["transformer"].oid]
+                ctx.check(f"C04 machine == transform(builder position), same mode [{tag}]",
+                          AND(ghost.agree_T(M1, o1["_current_axes"], tr["$A"], tr["$b"]), M1.rel == (o1["_distance_mode"].idx == self.rel_idx)), e, ["C04"], "inv")
             # ---- wf: core and state distance modes stay equal; tool flags stay consistent
             ctx.check(f"wf core/state distance mode [{tag}]", o1["_distance_mode"].idx == e.heap[self.sref.oid]["_current_distance_mode"].idx, e, ["C01", "C07", "C05"], "inv")
             ctx.check(f"wf tool flags consistent [{tag}]", wf_tool(w, e.heap, self.sref), e, ["C07", "C02", "C06"], "inv", known.get("wf_tool"))
@@ -663,3 +674,37 @@ def _init_B_with_hooks(b, ctx, method, bypass, nh):
 
 _hooked("move", False)
 _hooked("move_absolute", True)
+
+
+# ---------------------------------------------------------------------------------------------- C04: moves under an arbitrary affine transform
+def _affine(method, code, extra=None):
+    @unit(f"GCodeBuilder.{method}[affine]", ["C04"])
+    def u(ctx):
+        b = B(ctx, method, extra or motion_args, transform="affine")
+        tr = b.h0[b.info["transformer"].oid]
+        A3, b3 = tr["$A"], tr["$b"]
+        b.generic(skip=("C01", "C02", "C03", "C05", "C07"))
+        o0 = b.h0[b.g.oid]; cur = o0["_current_axes"]; rel = o0["_distance_mode"].idx == b.rel_idx
+        req = requested_point(b)
+        c0 = [ITE(c.none, z3.RealVal(0), c.inner.val) for c in cur.items()]
+        r0 = [ITE(r.none, z3.RealVal(0), r.inner.val) for r in req.items()]
+        tgt = [ITE(rel, c0[i] + r0[i], ITE(req.items()[i].none, c0[i], r0[i])) for i in range(3)]
+        img = lambda p, i: b3[i].val + sum(A3[i][j].val * p[j] for j in range(3))
+        lin = lambda d, i: sum(A3[i][j].val * d[j] for j in range(3))
+        for e in b.exits:
+            if e.kind != "return": continue
+            blocks = [s for g, s in emitted(e.log) if len(s.cmds) == 1]
+            blk = blocks[-1] if blocks else None
+            if blk is None: continue
+            cs_word, cs_complete = [], []
+            for i, Ax in enumerate(AXES):
+                p, v = ghost._axis_word(blk, Ax)
+                want = ITE(rel, lin([tgt[j] - c0[j] for j in range(3)], i), img(tgt, i))
+                cs_word.append(IMP(p, AND(v.finite, v.val == want)))                               # per word: image of the target / linear image of the displacement
+                cs_complete.append(IMP(NOT(p), img(tgt, i) == img(c0, i)))                        # completeness: an axis that is not mentioned does not have to change
+            ctx.check(f"C04 every emitted axis word is the transformed target (abs) / linear image of the displacement (rel) @{e.where}", AND(*cs_word), e, ["C04"], "post")
+            ctx.check(f"C04 every axis whose machine coordinate changes is mentioned @{e.where}", AND(*cs_complete), e, ["C04"], "post")
+    return u
+
+
+_affine("move", "G1"); _affine("rapid", "G0"); _affine("probe", "G38", probe_args)
